@@ -647,10 +647,19 @@ def r10(ctx, rep):
             if n.get("k") == "if" and n["c"].get("k") == "let" and any(x.get("k") == "mcall" and x["m"] == "take_to_define" for x in walk(n["c"]["e"])) and n.get("e") is None:
                 n_sites += 1
 
-                def done(x):
+                # what was taken out: the binding of `NotYetDefined(<taken>)`
+                taken = [y["n"] for y in walk(n["c"]["pat"]) if y.get("k") == "p_ident"]
+
+                def done(x, taken=taken):
                     if x.get("k") == "mcall" and x["m"] == "push" and show(x["r"], maxdepth=5).endswith(".ctes") and any(y.get("k") == "struct" and last_seg(y["p"]) == "Cte" for y in walk(x)):
                         return True
-                    return x.get("k") == "assign" and show(x["lhs"], maxdepth=5).endswith(".relation") and "NotYetDefined(" in show(x["rhs"], maxdepth=6)
+                    if x.get("k") == "assign" and show(x["lhs"], maxdepth=5).endswith(".relation") and "NotYetDefined(" in show(x["rhs"], maxdepth=6):
+                        # .. and what is put back is what was taken (not a compiled or otherwise derived form of it: a later reference compiles it
+                        # again in ITS context - column order, pruning -, which a cached result of the first reference does not have)
+                        m_ = re.search(r"NotYetDefined\((.*)\)$", show(x["rhs"], maxdepth=8))
+                        payload = re.sub(r"\.(clone|to_owned)\(\)$", "", m_.group(1).strip()) if m_ else ""
+                        return payload in taken
+                    return False
                 bad = flow.must_precede_exits(n["t"], done)
                 rep.check(not bad, f"defined-or-restored:{f['name']}", f"{f['path']}: after take_to_define() the declaration says `Defined`; the exit(s) at {bad} neither push a `Cte` for it nor restore "
                           "`NotYetDefined`: the next reference to the same let-table is emitted as a bare `FROM name` although no CTE of that name exists (or reads a real table of that name)",
@@ -1288,6 +1297,14 @@ def r20(ctx, rep):
     rep.check(n_arm >= 60 and n_field >= 100, "sites", f"expected >= 60 rebuilding arms and >= 100 field initialisers in {FOLD_FILES}, found {n_arm} / {n_field}")
 
 
+def r21(ctx, rep):
+    # the rows a filter keeps and the values a derive computes are part of "exactly the rows": an expression that is regrouped on its way
+    # to SQL, or a null test on the wrong operand, returns other rows. C02 decides those; C01 relies on them.
+    import C02
+    rep.borrowed(C02.r6, ctx, "C01.R21", "null comparisons become IS [NOT] NULL on the operand that is not the null literal")
+    rep.borrowed(C02.r4, ctx, "C01.R22", "every SQL template guards its operator context: an operand is parenthesised where SQL would regroup it")
+
+
 def run(ctx, rep):
-    for r in (r1, r2, r3, r4, r5, r6, r7, r8, r9, r10, r11, r12, r13, r14, r15, r16, r17, r18, r19, r20):
+    for r in (r1, r2, r3, r4, r5, r6, r7, r8, r9, r10, r11, r12, r13, r14, r15, r16, r17, r18, r19, r20, r21):
         rep.guard(r, ctx)
